@@ -953,6 +953,13 @@ def build(s):
                     return TrimeshPolyhedron(Space({s["var"]: 3}), file_name=path, file_type="stl", **tolkw)
                 finally:
                     os.remove(path)
+            if s.get("soup"):
+                # triangle soup: every face has its own three vertices (coincident vertices duplicated, as in raw STL data),
+                # every other face wound the other way round
+                V, F = np.asarray(s["vertices"], float), np.asarray(s["faces"], int)
+                F = np.array([f[::-1] if i % 2 else f for i, f in enumerate(F)])
+                return TrimeshPolyhedron(Space({s["var"]: 3}), vertices=[list(map(float, v)) for v in V[F].reshape(-1, 3)],
+                                         faces=[[3 * i, 3 * i + 1, 3 * i + 2] for i in range(len(F))], **tolkw)
             return TrimeshPolyhedron(Space({s["var"]: 3}), vertices=[list(map(float, v)) for v in s["vertices"]],
                                      faces=[list(map(int, f)) for f in s["faces"]], **tolkw)
         if p == "point":
